@@ -1022,6 +1022,22 @@ func ruleCompareWholeTerm(c *Ctx, r *Report) {
 					good = false
 				}
 			}
+			// two values of one CLOSED representation (two character lists, two code lists, two element slices) may
+			// be compared directly - the representation determines the term; a partial list has an open end, so
+			// its parts do not
+			if !good && !isPtr(recv.Type()) {
+				for f := range c.factsAt(in.Block()) {
+					if e, ok := f.cond.(*ssa.Extract); ok && e.Index == 1 && f.pol {
+						if ta, ok := e.Tuple.(*ssa.TypeAssert); ok && types.Identical(ta.AssertedType, recv.Type()) {
+							good = true
+						}
+					}
+				}
+				if good {
+					r.ok(rule, key, c.at(in), desc, "both operands are known to have the same closed representation", false)
+					return
+				}
+			}
 			if good {
 				r.ok(rule, key, c.at(in), desc, "the result of CompareCompound(receiver, ...)", true)
 			} else {
